@@ -12,7 +12,7 @@ pub const RULE: &str = "for every file of the seek corpus (channels × depth × 
 pub const ASSUMPTIONS: &[&str] = &["argument values outside the op alphabet are not explored (the states they reach mostly are)", "behaviour of reads after a FAILED seek is unspecified by the property: only absence of panics is required until the next successful seek", "a byte-reader End-relative seek on a stream with undeclared total may fail (the end is unknowable without a full decode) but if it succeeds it must be exact"];
 pub fn bounds(quick: bool) -> Value {
     if quick {
-        json!({"files": "channels {1,2,8} × depth {8,16,24} × 6 seek-table shapes (declared) + unknown-length variants for 2 shapes; 2 full frames + 5-sample final", "fixpoint": true})
+        json!({"files": "channels {1,2,8} × depth {8,16,24} × 6 seek-table shapes (declared) + unknown-length variants for 2 shapes + (2ch,12bit), (3ch,20bit), (5ch,4bit), (2ch,32bit) × 3 shapes; 2 full frames + 5-sample final", "fixpoint": true})
     } else {
         json!({"files": "channels {1,2,3,8} × depth {8,12,16,24,32} × 6 seek-table shapes × declared/unknown; 3 full frames + 5-sample final", "fixpoint": true})
     }
@@ -98,6 +98,12 @@ pub fn files(quick: bool) -> Vec<(u8, u32, &'static str, bool, usize)> {
                 for var in ["none", "every-2nd"] {
                     v.push((ch, bps, var, false, 2));
                 }
+            }
+        }
+        // depths that are not a whole number of bytes, with several channels (byte width != bits/8)
+        for (ch, bps) in [(2u8, 12u32), (3, 20), (5, 4), (2, 32)] {
+            for var in ["every-frame", "every-2nd", "none"] {
+                v.push((ch, bps, var, true, 2));
             }
         }
     } else {
